@@ -10,8 +10,8 @@ from checks import appcommon
 CFG = {
     "C01": dict(mode="det", directed=["fractional_min_stake", "absences_over_window", "clock_probe", "big_powers", "tiny_stakes_slashed", "evm_rejected_then_more", "many_proposals_one_block", "two_proposals_one_block", "evm_quiet_blocks", "restart_truncated", "vote_window_edges", "slash_then_unstake", "forced_unbond", "validator_churn", "many_unbonding", "price_change", "recreate_in_block"],
                 quick=dict(n=8, blocks=25, budget=0), thorough=dict(n=120, blocks=45, budget=0)),
-    "C06": dict(mode="iso", directed=["twin_jail", "minstake_change", "restart_truncated", "checktx_not_delivered", "limiter_block", "vote_window_edges", "forced_unbond", "same_block_withdraw"],
-                quick=dict(n=2, blocks=6, budget=160), thorough=dict(n=24, blocks=10, budget=700, full=True)),
+    "C06": dict(mode="iso", directed=["limiter_refusal_then_more", "twin_jail", "minstake_change", "restart_truncated", "checktx_not_delivered", "limiter_block", "vote_window_edges", "forced_unbond", "same_block_withdraw"],
+                quick=dict(n=2, blocks=6, budget=260), thorough=dict(n=24, blocks=10, budget=700, full=True)),
     "C07": dict(mode="restart", directed=["fractional_min_stake", "absences_over_window", "big_powers", "restart_after_first_block", "tiny_stakes_slashed", "tiny_voter_slashed", "evm_rejected_then_more", "withdraw_without_issuance", "minstake_change", "evm_quiet_blocks", "restart_truncated", "valcount_change", "validator_churn", "vote_window_edges", "price_change", "many_unbonding", "forced_unbond", "twin_jail", "self_below_min", "slash_then_unstake"],
                 quick=dict(n=4, blocks=14, budget=14), thorough=dict(n=24, blocks=24, budget=45, full=True)),
 }
